@@ -214,6 +214,41 @@ pub fn execute(t: &Trace, with_child: bool, passthrough_child: bool) -> C09Out {
         }
     }
     let b0 = reference.unwrap();
+    // the same list built on a thread that built (or still holds) *another* engine first: a sibling with
+    // the other optimise setting kept alive, or one with the other debug setting built and dropped.
+    // Process- or thread-wide interning / memo tables in the code under test show up here.
+    for pre in 1..=2u8 {
+        let w2 = w.clone();
+        let r = on_thread(Some(kr.next()), kr.next(), pre, move || {
+            let sibling = if pre == 1 {
+                Some(Sut::build(&w2.rules, &[], !w2.knobs.optimize, w2.knobs.debug, 0, false, None))
+            } else {
+                let _ = Sut::build(&w2.rules, &[], w2.knobs.optimize, !w2.knobs.debug, 0, false, None);
+                None
+            };
+            let out = build_bytes(&w2, 0, &[]);
+            drop(sibling);
+            out
+        });
+        out.builds += 1;
+        match r {
+            None => {
+                out.violation = Some(viol("no-panic", "panic while building after a sibling engine", last_panic(), "no panic".into()));
+                return out;
+            }
+            Some((b, _)) => {
+                if b != b0 {
+                    out.violation = Some(viol(
+                        "byte-identical-builds",
+                        &format!("bytes build after sibling engine on the same thread (variant {}: 1 = other optimise setting, kept alive; 2 = other debug setting, dropped) vs build#0", pre),
+                        first_diff(&b, &b0),
+                        "identical buffers".into(),
+                    ));
+                    return out;
+                }
+            }
+        }
+    }
     if with_child {
         let key = if passthrough_child { None } else { Some(kr.next()) };
         out.child_builds += 1;
